@@ -87,11 +87,11 @@ func (b *tmpl) write(s string) {
 }
 
 type variable struct {
-	name string
-	k    kind
-	elem kind // arrays: element kind
-	fn   *fnSig
-	loc  bool // created by a literal in this execution (safe to index-assign)
+	name  string
+	k     kind
+	elem  kind // arrays: element kind
+	fn    *fnSig
+	loc   bool    // created by a literal in this execution (safe to index-assign)
 	tmpl  string  // functions: template in which the body is written
 	sites []*Site // functions: probe sites written in the body
 }
@@ -105,9 +105,11 @@ type fnSig struct {
 type genOpts struct {
 	probes      bool // emit probes
 	probePct    int  // probability (percent) of wrapping an expression in a probe
-	mapRegions  bool // wrap for-over-map in region markers with pure bodies (C13)
+	mapRegions  bool // emit for loops over a multi-entry Go map, inside region markers
+	pureMapBody bool // ... with a probe-free body, so call order does not depend on the visiting order (C13/C14)
 	tolerant    bool // emit uses of the unbound identifier zz
 	failing     bool // may emit one naturally failing statement
+	failPct     int  // ... with this probability (default 100)
 	noise       bool // multi-line strings / comments between tags (C15)
 	sharedSafe  bool // never mutate data that may live in a shared parent (always true today)
 	maxPieces   int
@@ -139,7 +141,7 @@ type gen struct {
 func (g *gen) feat(name string) { g.p.Features[name]++ }
 
 func (g *gen) intn(label string, lo, hi int) int { return rapid.IntRange(lo, hi).Draw(g.t, label) }
-func (g *gen) pct(label string, p int) bool     { return rapid.IntRange(0, 99).Draw(g.t, label) < p }
+func (g *gen) pct(label string, p int) bool      { return rapid.IntRange(0, 99).Draw(g.t, label) < p }
 
 func (g *gen) fresh(prefix string) string {
 	g.nextVar++
@@ -736,7 +738,12 @@ func (g *gen) mapForPiece(depth int) {
 	sc := g.pushScope()
 	g.scope = append(g.scope, variable{name: kv, k: kStr}, variable{name: vv, k: kInt})
 	g.frames = 0
+	saveProbes := g.o.probes
+	if g.o.pureMapBody {
+		g.o.probes = false
+	}
 	g.tag("<%=", kv+" + \"=\" + ("+g.expr(kInt, 1, "for-body")+" + "+vv+")", "%>")
+	g.o.probes = saveProbes
 	g.popScope(sc)
 	g.cur.write("I»")
 	g.tag("<%", "}", "%>")
@@ -1099,7 +1106,10 @@ func genProgram(t *rapid.T, o genOpts) *Program {
 	p.JS = g.pct("js", 25)
 	np := g.intn("pieces", 1, o.maxPieces)
 	failAt := -1
-	if o.failing && g.pct("failing", 50) {
+	if o.failPct == 0 {
+		o.failPct = 100
+	}
+	if o.failing && g.pct("failing", o.failPct) {
 		failAt = g.intn("failat", 0, np-1)
 	}
 	for i := 0; i < np; i++ {
